@@ -1,0 +1,84 @@
+//go:build verif
+
+package tbtc
+
+import (
+	"math/big"
+
+	"github.com/keep-network/keep-core/pkg/chain"
+	"github.com/keep-network/keep-core/pkg/protocol/group"
+)
+
+// Thin exported wrappers used by the /verif harness (property C10). They build
+// the retry loop objects with the production constructors, set the attempt
+// counter and call the unexported selection methods. No behaviour of their own.
+
+// VerifC10SigningSelection runs signingRetryLoop.performMembersSelection for
+// the given member and attempt and returns the excluded members, the attempt
+// seed derived by the constructor and the error.
+func VerifC10SigningSelection(
+	message *big.Int,
+	memberIndex group.MemberIndex,
+	operators chain.Addresses,
+	groupParameters *GroupParameters,
+	attempt uint,
+	readyMembersIndexes []group.MemberIndex,
+) ([]group.MemberIndex, int64, error) {
+	srl := newSigningRetryLoop(
+		logger, message, 0, memberIndex, operators, groupParameters, nil, nil,
+	)
+	srl.attemptCounter = attempt
+	excluded, err := srl.performMembersSelection(readyMembersIndexes)
+	return excluded, srl.attemptSeed, err
+}
+
+// VerifC10SigningQualified runs signingRetryLoop.qualifiedOperatorsSet.
+func VerifC10SigningQualified(
+	message *big.Int,
+	memberIndex group.MemberIndex,
+	operators chain.Addresses,
+	groupParameters *GroupParameters,
+	attempt uint,
+	readyMembersIndexes []group.MemberIndex,
+) (map[chain.Address]bool, error) {
+	srl := newSigningRetryLoop(
+		logger, message, 0, memberIndex, operators, groupParameters, nil, nil,
+	)
+	srl.attemptCounter = attempt
+	return srl.qualifiedOperatorsSet(readyMembersIndexes)
+}
+
+// VerifC10DkgSelection runs dkgRetryLoop.performMembersSelection for the given
+// member and attempt and returns the excluded members, the attempt seed
+// derived by the constructor and the error.
+func VerifC10DkgSelection(
+	seed *big.Int,
+	memberIndex group.MemberIndex,
+	operators chain.Addresses,
+	groupParameters *GroupParameters,
+	attempt uint,
+	readyMembersIndexes []group.MemberIndex,
+) ([]group.MemberIndex, int64, error) {
+	drl := newDkgRetryLoop(
+		logger, seed, 0, memberIndex, operators, groupParameters, nil, 0,
+	)
+	drl.attemptCounter = attempt
+	excluded, err := drl.performMembersSelection(readyMembersIndexes)
+	return excluded, drl.attemptSeed, err
+}
+
+// VerifC10DkgQualified runs dkgRetryLoop.qualifiedOperatorsSet.
+func VerifC10DkgQualified(
+	seed *big.Int,
+	memberIndex group.MemberIndex,
+	operators chain.Addresses,
+	groupParameters *GroupParameters,
+	attempt uint,
+	readyMembersIndexes []group.MemberIndex,
+) (map[chain.Address]bool, error) {
+	drl := newDkgRetryLoop(
+		logger, seed, 0, memberIndex, operators, groupParameters, nil, 0,
+	)
+	drl.attemptCounter = attempt
+	return drl.qualifiedOperatorsSet(readyMembersIndexes)
+}
